@@ -202,6 +202,14 @@ def _request(X, store, model, cap, cn, sans, sans_form="list"):
     return e
 
 
+def _opt(X, name, menu, default):
+    """selector that only exists in the thorough tier; a witness recorded in the quick tier replays with the quick value"""
+    try:
+        return X.choose(name, menu)
+    except KeyError:
+        return default
+
+
 def _with_stub(fn):
     def run(X):
         saved = certs.dummy_cert
@@ -224,12 +232,14 @@ def h_step(X, cap, thorough):
     via = X.choose("via", ["cn", "san"])
     cn = name if via != "san" else None
     sans = [name] if via != "cn" else []
-    sans_form = X.choose("sans_form", ["list", "generalnames", "legacy-str"]) if (sans and thorough) else ("list" if via == "cn" else "generalnames")
+    quick_form = "list" if via == "cn" else "generalnames"
+    sans_form = _opt(X, "sans_form", ["list", "generalnames", "legacy-str"], quick_form) if (sans and thorough) else quick_form
     ncustom = X.choose("customs", 3 if thorough else 2)
+    state = X.choose("state", STATES)  # same menu in both tiers (witnesses replay in either); the tier prunes it
     if thorough:  # all queue shapes without custom entries, three representative ones with them
-        state = X.choose("state", STATES if ncustom == 0 else [STATES[0], STATES[3], STATES[4]])
+        X.assume(ncustom == 0 or state in (STATES[0], STATES[3], STATES[4]))
     else:
-        state = X.choose("state", STATES[:1] + STATES[3:])
+        X.assume(state in STATES[:1] + STATES[3:])
     # --- pre-state: generated part, written directly
     L = {"empty": 0, "one": 1, "cap-1": cap - 1}.get(state, cap)
     fill = []
@@ -250,10 +260,9 @@ def h_step(X, cap, thorough):
     # --- pre-state: custom registrations through the real add_cert
     for j in range(ncustom):
         pat = _pattern(X, f"pat{j}") if j == 0 else X.choose("pat1", ["*", "*.c", "a", "b.a"])
+        how = "names-arg" if pat == "*" else ("cert-san" if pat.startswith("*.") else "cert-cn")  # quick: route fixed per pattern shape
         if thorough and ncustom == 1:
-            how = X.choose(f"how{j}", ["names-arg", "cert-cn", "cert-san"])
-        else:  # quick: registration route fixed per pattern shape (all three routes still occur)
-            how = "names-arg" if pat == "*" else ("cert-san" if pat.startswith("*.") else "cert-cn")
+            how = _opt(X, f"how{j}", ["names-arg", "cert-cn", "cert-san"], how)
         if how == "names-arg":
             model.register(store, None, [], [pat])
         elif how == "cert-cn":
